@@ -38,6 +38,12 @@ const (
 	DefaultN  = 16384 // 2^14
 	DefaultR  = 8
 	DefaultP  = 1
+
+	// upper bounds accepted when unmarshalling stored parameters
+	// (the wallet default is N=2^18, r=8, p=1, i.e. 256 MiB)
+	maxScryptN  = 1 << 24
+	maxScryptRP = 1 << 8
+	maxScryptNR = 1 << 24 // 128*N*r <= 2 GiB
 )
 
 // CryptoKey represents a secret key which can be used to encrypt and decrypt
@@ -183,6 +189,16 @@ func (sk *SecretKey) Unmarshal(marshalled []byte) error {
 	params.R = int(binary.LittleEndian.Uint64(marshalled[:8]))
 	marshalled = marshalled[8:]
 	params.P = int(binary.LittleEndian.Uint64(marshalled[:8]))
+
+	// Refuse cost parameters that no key written by this package carries:
+	// scrypt allocates 128*N*r bytes and runs N*r*p rounds, so a corrupted
+	// or hostile parameter block would otherwise exhaust memory (a fatal,
+	// unrecoverable runtime error) or stall the caller.
+	if params.N <= 1 || params.R <= 0 || params.P <= 0 ||
+		params.N > maxScryptN || params.R > maxScryptRP || params.P > maxScryptRP ||
+		uint64(params.N)*uint64(params.R) > maxScryptNR {
+		return ErrMalformed
+	}
 
 	return nil
 }
